@@ -28,7 +28,7 @@ func init() {
 			"every forest of <=2 (thorough 3) objects is probed a second time after 10 operations per object that only read it (merging literals, ** into calls/maps, digest, chain digest, bear/bro, listing, comparing, printing, patch, del); " +
 			"chains of n bears for 20 lengths n up to 200 (a name owned by the far end, the far _missing, proto/ancestors/which/kindOf?); " +
 			"o.n, o.n(9), o['n], which for n in {a,b,c}, proto, ancestors, keys, keys(private?), kindOf? against every object; states = forests, transitions = operations; " +
-			"non-trivial = forest with inheritance (at least one bear/bro); distinct = distinct operation sequence; round 7: A fourth family gives plain-value properties other kinds of non-callable values (an object descending from a function, an iterator literal), depth 2 (thorough 3).",
+			"non-trivial = forest with inheritance (at least one bear/bro); distinct = distinct operation sequence; round 7: A fourth family gives plain-value properties other kinds of non-callable values (an object descending from a function, an iterator literal), depth 2 (thorough 3).; round 8: Forests may be rooted at nil; for every object the walk passes Obj and ends at BaseObj and kindOf? agrees; one list-chain call with three arguments runs over all objects of each forest.",
 		Assumptions: []string{
 			"objects are identified by an own `id` (or private `_id`) property; the names a, b, c are not defined on the built-in prototypes",
 			"histories are not merged (the whole history tree is explored), so no abstraction of hidden state is assumed",
